@@ -221,7 +221,7 @@ class ConcRun:
         inflight = Counter()
         produced = {}          # value -> (key, completion time)
         execs = [0]
-        script = c["script"]
+        script = list(c["script"])       # never mutate the case: it is the replay artefact
         run = self
         parked = {}            # key -> number of executions currently suspended
 
